@@ -196,7 +196,7 @@ Proof.
   - destruct (move env s vid) as [a| |] eqn:M; try discriminate. pose proof (move_quiet _ _ _ M) as Q.
     repeat dmatch H; try (inv H; exact Q).
     unfold drop_off_trip in H. repeat dmatch H. inv H. eapply quiet_trans; [exact Q|]. eapply quiet_emit; [|reflexivity|reflexivity]. exact Logic.I.
-  - eapply charge_quiet; eauto.
+  - unfold charge_unless_full in H. repeat dmatch H; try (inv H; apply quiet_refl); eapply charge_quiet; eauto.
   - repeat dmatch H. eapply modv_quiet; eauto.
   - repeat dmatch H. eapply charge_quiet; eauto.
 Qed.
